@@ -324,6 +324,26 @@ func checkC05(r *Run) {
 	for _, m := range longMsgs[:3] {
 		msgs = append(msgs, "\r\n"+m, "\r\n\r\n"+m, "\n"+m)
 	}
+	// generated first lines (also near misses: no reason phrase, no separator, odd separators) under every line
+	// terminator, in front of a header block that uses the same terminator: whatever is accepted has its first-line
+	// fields inside the first line and its headers on the header lines
+	for _, t := range []string{"\r\n", "\n", "\r"} {
+		tail := "From: <sip:a@example.org>;tag=1" + t + "To: <sip:b@example.org>" + t + "CSeq: 7 INVITE" + t + "Content-Length: 0" + t + t
+		for _, s1 := range []string{" ", "  ", "\t"} {
+			for _, code := range []string{"200", "000", "99", "1000", "2 0"} {
+				for _, rest := range []string{"", " ", " OK", "  OK ", " O K", "\tOK", " OK\t", ":", " From: x"} {
+					msgs = append(msgs, "SIP/2.0"+s1+code+rest+t+tail)
+				}
+			}
+			for _, meth := range []string{"INVITE", "X", "SIP/2.0"} {
+				for _, uri := range []string{"sip:a@b", "*", "sip:a", ""} {
+					for _, ver := range []string{"SIP/2.0", "SIP/2.0 ", "SIP/3.0", "", "sip/2.0"} {
+						msgs = append(msgs, meth+s1+uri+s1+ver+t+tail, meth+s1+uri+ver+t+tail)
+					}
+				}
+			}
+		}
+	}
 	nMenu := 0
 	for i, m := range msgs {
 		if strings.HasPrefix(m, "INVITE sip:a SIP/2.0\r\n") && strings.Contains(m, "CSeq: 1 INVITE\r\nl: 0") {
